@@ -841,6 +841,7 @@ func c01Main(args []string) {
 		panic(err)
 	}
 	defer os.RemoveAll(scratch)
+	ev.AtExit(func() { os.RemoveAll(scratch) })
 	c := &c01{run: run, scratch: scratch}
 
 	if len(args) >= 2 && args[0] == "--replay" {
